@@ -136,6 +136,13 @@ func (g *Gen) msg() MsgSpec {
 	}
 	if g.R.Intn(5) == 0 {
 		m.Pad = g.R.Intn(200)
+	} else if g.R.Intn(6) == 0 {
+		// payloads whose value does not survive a decode/encode cycle, odd spacing, escapes
+		m.Payload = fmt.Sprintf([]string{
+			`{"n":%d,"big":12345678901234567890,"tiny":0.1000000000000000055511151231257827,"huge":1e400}`,
+			`{ "n" : %d ,  "s":"\u00e9<&>\"q\"", "nested":{"a":[1,2,{"b":null}],"t":true} }`,
+			`{"n":%d,"z":-0.0,"i":9007199254740993,"dup":1,"dup":2}`,
+		}[g.R.Intn(3)], m.N)
 	}
 	return m
 }
@@ -178,6 +185,9 @@ func (g *Gen) Next(now int64) Op {
 			op := Op{K: "publish", Topic: topic}
 			for i := 0; i < n; i++ {
 				op.Msgs = append(op.Msgs, g.msg())
+			}
+			if g.R.Intn(3) == 0 {
+				op.Via = "handler" // through the gRPC Publish handler instead of the action
 			}
 			return op, true
 		}},
